@@ -9,10 +9,20 @@ package main
 // authenticated, - no verdict (model/implementation comparison only).
 
 import (
+	"context"
+	"crypto/sha256"
+	"encoding/hex"
+	"fmt"
+	"io"
+	"net/http"
 	"net/url"
 	"sort"
 	"strconv"
 	"strings"
+	"time"
+
+	"github.com/aws/aws-sdk-go-v2/aws"
+	v4 "github.com/aws/aws-sdk-go-v2/aws/signer/v4"
 )
 
 type c28 struct{}
@@ -572,6 +582,7 @@ func c28Base(r *Rng) (*c29Signed, c29ClientReq, string, string, int64, int64) {
 
 func (c28) Gen(r *Rng, tier string, n int) []string {
 	cases := make([]string, 0, n+200)
+	cases = append(cases, c28LargeBodyCases(r, tier)...)
 	for len(cases) < n {
 		if r.Chance(10) { // presigned URL whose validity is outside S3's 1..604800 s: never valid, although genuinely signed
 			c, _ := c29GenClient(r)
@@ -645,4 +656,138 @@ func c28ParseTs(ts string) int64 {
 	doe := yoe*365 + yoe/4 - yoe/100 + doy
 	days := era*146097 + doe - 719468
 	return ((days*24+int64(h))*60+int64(mi))*60e9 + int64(se)*1e9
+}
+
+// ---------------------------------------------------------------------------------------------
+// bodies around maxMemoryCacheSize (10,000,000 bytes): generateHashedPayload keeps up to the limit in memory and
+// spools longer bodies to a file; the payload line must be the SHA-256 of the RECEIVED bytes on both sides.
+const c28MemLimit = 10 * 1000 * 1000
+
+func c28StreamHash(sp c29BodySpec, n int64) string {
+	h := sha256.New()
+	io.Copy(h, sp.section(0, n))
+	return hex.EncodeToString(h.Sum(nil))
+}
+
+// one header-signed PUT with a body of the given size, known length or chunked, and its body/transfer mutants
+func c28LargeBodyBase(r *Rng, size int64, chunked bool) []string {
+	cred := c29Creds[r.Intn(len(c29Creds))]
+	at := time.Date(2026, 1, 1, 0, 0, 0, 0, time.UTC).Add(time.Duration(r.Intn(365*86400)) * time.Second)
+	now := at.UnixNano() + int64(r.Intn(300))*1e9
+	orig := c29BodySpec{RecvLen: size, SentLen: size, Seed: uint64(1 + r.Intn(3)), Flip: -1, Xfer: "k"}
+	if chunked {
+		orig.Xfer = "c"
+	}
+	origHash := c28StreamHash(orig, size)
+	host, path := "s3.localhost", fmt.Sprintf("/bucket/big-%d", size)
+	req, err := http.NewRequest("PUT", "http://"+host+path, http.NoBody)
+	if err != nil {
+		panic(err)
+	}
+	if chunked {
+		req.ContentLength = -1
+		req.TransferEncoding = []string{"chunked"}
+	} else {
+		req.ContentLength = size // the SDK signs content-length for bodies of known length
+	}
+	req.Header.Set("X-Amz-Content-Sha256", origHash)
+	lg := &c29CapLogger{}
+	signer := v4.NewSigner(func(o *v4.SignerOptions) { o.DisableURIPathEscaping = true; o.LogSigning = true; o.Logger = lg })
+	if err := signer.SignHTTP(context.Background(), aws.Credentials{AccessKeyID: cred[0], SecretAccessKey: cred[1]}, req, origHash, "s3", c29Region, at); err != nil {
+		panic(err)
+	}
+	canon, sts, ok := c29ParseSignLog(lg.msgs[0])
+	if !ok {
+		panic("cannot parse signer log")
+	}
+	lines := strings.Split(sts, "\n")
+	a := req.Header.Get("Authorization")
+	sig := a[strings.Index(a, "Signature=")+len("Signature="):]
+	fact := c29Fact{Secret: cred[1], Date: lines[1][:8], Region: c29Region, Service: "s3", Term: "aws4_request", Alg: lines[0], Ts: lines[1], Scope: lines[2], CR: canon, Mac: sig}
+	if fact.mac() != sig || lines[3] != c29Sha(canon) {
+		panic("SDK signature is not the HMAC of its own string to sign")
+	}
+	hdr := http.Header{}
+	for k, v := range req.Header {
+		hdr[k] = v
+	}
+	if !chunked {
+		hdr["Content-Length"] = []string{strconv.FormatInt(size, 10)}
+	}
+	base := c29Request{Method: "PUT", Host: host, Path: path, Headers: c29HeaderList(hdr)}
+	var out []string
+	emit := func(name, expect string, sp c29BodySpec, f func(q *c29Request)) {
+		q := c28Clone(base)
+		if f != nil {
+			f(&q)
+		}
+		sp.RecvLen, sp.Err = sp.SentLen, sp.Xfer == "t"
+		if sp.Xfer == "k" { // net/http delivers exactly Content-Length bytes, or fails when fewer arrive
+			cl := int64(-1)
+			if i := c28HeaderIdx(q, "Content-Length"); i >= 0 {
+				cl, _ = strconv.ParseInt(q.Headers[i][1], 10, 64)
+			}
+			if cl >= 0 && sp.SentLen > cl {
+				sp.RecvLen = cl
+			}
+			if cl >= 0 && sp.SentLen < cl {
+				sp.Err = true
+			}
+		}
+		q.BodySpec, q.PayloadHex = "", ""
+		q.PayloadHex = c28StreamHash(sp, sp.RecvLen)
+		q.BodySpec = sp.String()
+		e := expect
+		if e == "Y" {
+			e = "Y" + tokBytes(cred[0])
+		}
+		out = append(out, c29AuthLine(now, c29Region, c29Creds, q, []c29Fact{fact}, e+"@large-body-"+name))
+	}
+	with := func(f func(sp *c29BodySpec)) c29BodySpec { sp := orig; f(&sp); return sp }
+	emit("original", "Y", orig, nil)
+	emit("flip-start", "N", with(func(sp *c29BodySpec) { sp.Flip = 0 }), nil)
+	emit("flip-middle", "N", with(func(sp *c29BodySpec) { sp.Flip = size / 2 }), nil)
+	emit("flip-end", "N", with(func(sp *c29BodySpec) { sp.Flip = size - 1 }), nil)
+	emit("declared-digest-wrong", "N", orig, func(q *c29Request) { c28SetHeader(q, "X-Amz-Content-Sha256", c29Sha("other")) })
+	tampered := with(func(sp *c29BodySpec) { sp.Flip = size - 1 })
+	emit("tampered-and-redeclared", "N", tampered, func(q *c29Request) { c28SetHeader(q, "X-Amz-Content-Sha256", c28StreamHash(tampered, size)) })
+	if !chunked {
+		emit("extra-byte-beyond-content-length", "Y", with(func(sp *c29BodySpec) { sp.SentLen = size + 1 }), nil) // not part of this request's body
+		emit("body-shorter-than-content-length", "N", with(func(sp *c29BodySpec) { sp.SentLen = size - 1 }), nil)
+		emit("content-length-raised", "N", with(func(sp *c29BodySpec) { sp.SentLen = size + 1 }), func(q *c29Request) {
+			c28SetHeader(q, "Content-Length", strconv.FormatInt(size+1, 10))
+		})
+		emit("content-length-lowered", "N", orig, func(q *c29Request) { c28SetHeader(q, "Content-Length", strconv.FormatInt(size-1, 10)) })
+		emit("to-chunked", "N", with(func(sp *c29BodySpec) { sp.Xfer = "c" }), func(q *c29Request) { c28DelHeader(q, "Content-Length") })
+	} else {
+		emit("chunked-stream-truncated", "N", with(func(sp *c29BodySpec) { sp.Xfer = "t" }), nil)
+		emit("chunked-extra-byte", "N", with(func(sp *c29BodySpec) { sp.SentLen = size + 1 }), nil)
+		emit("chunked-one-byte-less", "N", with(func(sp *c29BodySpec) { sp.SentLen = size - 1 }), nil)
+		// same bytes sent with a Content-Length instead of chunked: content-length was not signed and is not a
+		// must-be-signed header, the received bytes are the signed ones
+		emit("to-known-length", "Y", with(func(sp *c29BodySpec) { sp.Xfer = "k" }), func(q *c29Request) {
+			c28SetHeader(q, "Content-Length", strconv.FormatInt(size, 10))
+		})
+	}
+	return out
+}
+
+func c28LargeBodyCases(r *Rng, tier string) []string {
+	sizes := []int64{c28MemLimit - 1, c28MemLimit, c28MemLimit + 1, c28MemLimit + 4096}
+	var out []string
+	if tier == "thorough" {
+		for round := 0; round < 2; round++ {
+			for _, s := range sizes {
+				out = append(out, c28LargeBodyBase(r, s, false)...)
+				out = append(out, c28LargeBodyBase(r, s, true)...)
+			}
+		}
+		return out
+	}
+	// quick: exactly at the limit (last in-memory size; transfer mode varies with the seed), just above it with a known
+	// length and above it with chunked transfer (both spooled); limit-1 and the other combinations run in the thorough tier
+	out = append(out, c28LargeBodyBase(r, c28MemLimit, r.Bool())...)
+	out = append(out, c28LargeBodyBase(r, c28MemLimit+1, false)...)
+	out = append(out, c28LargeBodyBase(r, sizes[2+r.Intn(2)], true)...)
+	return out
 }
